@@ -20,6 +20,8 @@ PROPS = {
     "C17": {"engines": [
         {"name": "loopback-session", "pkg": "internal/bgp/native", "run": "^TestVerifC17Session$", "race": True, "shrinktime": "20s",
          "checks": {Q: 600, T: 48000}, "shards": {Q: 4, T: 16}, "timeout": {Q: 900, T: 5400}},
+        {"name": "virtual-session", "pkg": "internal/bgp/native", "run": "^TestVerifC17Virtual$", "go": "go1.26.8",
+         "checks": {Q: 40000, T: 8000000}, "shards": {Q: 4, T: 16}},
     ]},
     "C19": {"engines": [
         {"name": "frr-debouncer", "pkg": "internal/bgp/frr", "run": "^TestVerifC19Debounce$", "go": "go1.26.8",
